@@ -292,6 +292,10 @@ class ISD(model.Document):
       for region in cached_doc.iter_regions():
         compute_sig_times(interval_cache, content_interval, s_times, region, 0, None)
 
+      if len(doc_regions) == 0 and doc.has_initial_value(styles.StyleProperties.BackgroundColor):
+        # the default region is used, and it can have a visible background at any time
+        content_interval = [0, None]
+
       # add significant times for body and its descendents
 
       if cached_doc.get_body() is not None:
